@@ -219,7 +219,9 @@ func byteMutations(r *rand.Rand, name string, content []byte, n int) []mutation 
 }
 
 func strayMutations(objName string) []mutation {
-	mk := func(kind, desc string, f func(dir string)) mutation { return mutation{kind: "stray:" + kind, desc: desc, app: f} }
+	mk := func(kind, desc string, f func(dir string)) mutation {
+		return mutation{kind: "stray:" + kind, desc: desc, app: f}
+	}
 	uu := "0a1b2c3d-0000-4000-8000-00000000abcd"
 	return []mutation{
 		mk("nodot", "file without a dot", func(d string) { os.WriteFile(filepath.Join(d, "README"), []byte("x"), 0600) }),
@@ -308,7 +310,10 @@ func callSequence(root string, uuids []string, rep *hostileReport) (first string
 		run("AssignIndex "+f, func() string { return (&Exec{db: db, mu: nil}).assignIndexNoHandle(f2) })
 	}
 	run("Control", func() string { return errClass(db.Control()) })
-	run("Insert new", func() string { sp := Spec{A: 41, S: hexs("hostile-new"), L: -1, M: -1}; return errClass(db.InsertOrUpdate(sp.build())) })
+	run("Insert new", func() string {
+		sp := Spec{A: 41, S: hexs("hostile-new"), L: -1, M: -1}
+		return errClass(db.InsertOrUpdate(sp.build()))
+	})
 	if len(uuids) > 0 {
 		run("Insert update", func() string {
 			sp := Spec{A: 42, S: hexs("hostile-upd"), L: -1, M: -1}
